@@ -90,6 +90,24 @@ class M(Model):
                 L[m, j] = True
         return L
 
+    # ------------------------------------------------------- plan bias ('solve' mode of the drivers)
+    def solve_action(self, s, r=0):
+        """Greedy dispatch: every available machine starts one of the jobs it may legally take (r picks
+        which); now and then one machine waits, but never so that all machines idle.  Reaches a finished
+        schedule instead of the 'simultaneously idle' ending of random legal play."""
+        v = self._view(s)
+        L = self._legal_from_view(v)
+        r = int(r)
+        a = np.full(self.Mc, self.noop, np.int64)
+        for m in range(self.Mc):
+            jobs = np.flatnonzero(L[m, : self.J])
+            if jobs.size:
+                a[m] = jobs[(r // (m + 1) + m) % jobs.size]
+        started = np.flatnonzero(a != self.noop)
+        if r % 5 == 0 and started.size and ((v["rem"] > 1).any() or started.size > 1):
+            a[started[(r // 5) % started.size]] = self.noop  # deliberate wait
+        return a.astype(np.int32)
+
     # --------------------------------------------------------------------------- C04 / C05
     def legal(self, s):
         return self._legal_from_view(self._view(s))
